@@ -240,6 +240,48 @@ func TestC11FreeRunning(t *testing.T) {
 					st = fe2
 				}
 				name, admin, cur := users[i].Name, users[i].Admin, users[i].PW
+				if i%4 == 2 {
+					// this client's user has its admin flag flipped all the time by a second client while the first keeps logging in
+					// with the unchanged password: the user exists throughout, so every login succeeds
+					stopFlip := make(chan struct{})
+					flipDone := make(chan int)
+					flipErr := ""
+					go func() {
+						n, a := 0, admin
+						for {
+							select {
+							case <-stopFlip:
+								flipDone <- n
+								return
+							default:
+							}
+							a = !a
+							if err := fe2.SetAdmin(name, a); err != nil {
+								flipErr = fmt.Sprintf("client %d: SetAdmin(%s) failed while logins of that user were running: %v", i, name, err)
+								<-stopFlip
+								flipDone <- n
+								return
+							}
+							n++
+						}
+					}()
+					bad := ""
+					for r := 1; r <= rounds*6 && bad == ""; r++ {
+						if ok, _, _, err := st.Authenticate(name, cur); !ok {
+							bad = fmt.Sprintf("client %d: Authenticate(%s, unchanged correct password) answered ok=false (%v) while another client was changing that user's admin flag (login #%d, mode %q)", i, name, err, r, mode)
+						}
+					}
+					close(stopFlip)
+					flips := <-flipDone
+					if bad == "" {
+						bad = flipErr
+					}
+					if bad == "" && flips > 0 {
+						vlib.Class("free-running:logins-racing-set-admin-of-the-same-user")
+					}
+					errs <- bad
+					return
+				}
 				for r := 1; r <= rounds; r++ {
 					if r%7 == 1 {
 						// a wrong-password login of the same user in flight together with the correct one (e.g. a coalescing
